@@ -23,6 +23,15 @@ def minList : List Rat → Rat
   | [] => 0
   | x :: t => t.foldl (fun a b => rmin a b) x
 
+/-- index of the first maximum of a non-empty list (`np.argmax`) -/
+def argmaxFirst : List Rat → Nat
+  | [] => 0
+  | x :: t =>
+    let rec go (best : Rat) (bi : Nat) (i : Nat) : List Rat → Nat
+      | [] => bi
+      | y :: t => if best < y then go y i (i + 1) t else go best bi (i + 1) t
+    go x 0 1 t
+
 /-- running minimum that starts at `+inf` (`none`) -/
 def minOpt : List Rat → Option Rat
   | [] => none
